@@ -3,7 +3,7 @@
 use crate::core::{Case, Ctx, Stats, Tier};
 use crate::runner::RunOpts;
 
-pub mod c05;
+pub mod steps;
 
 pub trait Check: Sync {
     fn id(&self) -> &'static str;
@@ -23,7 +23,18 @@ pub trait Check: Sync {
 }
 
 pub fn all() -> Vec<&'static dyn Check> {
-    vec![&c05::C05]
+    vec![
+        &steps::C04,
+        &steps::C05,
+        &steps::C06,
+        &steps::C07,
+        &steps::C08,
+        &steps::C12,
+        &steps::C13,
+        &steps::C14,
+        &steps::C16,
+        &steps::C18,
+    ]
 }
 
 pub fn by_id(id: &str) -> Option<&'static dyn Check> {
